@@ -38,7 +38,7 @@ DOCUMENTED = ['application/json', 'application/json-rpc', 'application/jsonreque
 FLOORS = {'*': {**{f'{i}:{t}': 10 for i in INTEGRATIONS for t in DOCUMENTED},
                 **{f'{i}:{t}+params': 10 for i in INTEGRATIONS for t in DOCUMENTED},
                 **{f'{i}:refused-type': 30 for i in INTEGRATIONS}, **{f'{i}:empty-reply': 5 for i in INTEGRATIONS},
-                'status:non-200': 50, 'endpoint:added': 50, 'endpoint:added-sub': 50, 'endpoint:added-bp': 50, 'charset:non-utf8-declared': 30, 'cross-integration-comparisons': 200, 'non-utf8-bodies': 10}}
+                'status:non-200': 50, 'endpoint:added': 50, 'endpoint:added-sub': 50, 'endpoint:added-bp': 50, 'endpoint:sub-application': 50, 'charset:non-utf8-declared': 30, 'cross-integration-comparisons': 200, 'non-utf8-bodies': 10}}
 
 STATUS_TABLE = {-32700: 400, -32600: 400, -32601: 404, -32602: 422, -32000: 500, -32603: 500}
 
@@ -82,7 +82,7 @@ class App:
         self.log = world.Log()
         is_async = integration == 'aiohttp'
         self.twins = {}
-        for name in ('root', 'added', 'added-sub', 'added-bp'):
+        for name in ('root', 'added', 'added-sub', 'added-bp', 'sub-application'):
             t = world.World(is_async, 3)
             t.dispatcher.add(self._which(name, is_async), 'which')
             self.twins[name] = t
@@ -107,6 +107,12 @@ class App:
             d3 = self.app.add_endpoint('/last', max_batch_size=3)
             d3.add(self._which('last', True), 'which')
             self.paths['added'] = (root.rstrip('/') + '/sub')
+            # a whole pjrpc Application with a path of its own, mounted under a prefix
+            subapp = integ.Application('/rpcsub', status_by_error=self.status, max_batch_size=3)
+            subapp.dispatcher.add_methods(world.build_registry(self.log, True))
+            subapp.dispatcher.add(self._which('sub-application', True), 'which')
+            self.app.add_subapp('/v1', subapp)
+            self.paths['sub-application'] = root.rstrip('/') + '/v1/rpcsub'
             self._start_aiohttp()
         elif integration == 'flask':
             import flask
@@ -246,6 +252,8 @@ def run_post(ctx, root, status_kind, path_key, media_type, body_hex, family):
     for integration in INTEGRATIONS:
         if integration == 'werkzeug' and (status_kind != 'default' or path_key != 'root'):
             continue
+        if path_key == 'sub-application' and integration != 'aiohttp':
+            continue          # mounting a whole pjrpc Application under a prefix exists in the aiohttp integration only
         app = get_app(integration, root, status_kind)
         if getattr(app, 'silent', False):
             ctx.skip('application-already-reported-silent')      # one report per application; every further one would wait again
@@ -364,7 +372,9 @@ MEDIA = ['application/json', 'application/json-rpc', 'application/jsonrequest',
          'application/json ; charset=utf-8', 'application/json;charset=utf-8; foo=bar',
          'APPLICATION/JSON', 'Application/Json-Rpc',
          'application/jsonx', 'application/x-json', 'text/json', 'text/plain', 'application/x-www-form-urlencoded',
-         'application/xml', 'application', 'json', None]
+         'application/xml', 'application', 'json', None,
+         # structured-syntax suffixes are other media types, however JSON-ish they look
+         'application/vnd.api+json', 'application/problem+json; charset=utf-8', 'application/ld+json', 'application/json+x']
 
 
 def bodies(rng, full):
@@ -420,7 +430,7 @@ def gen(ctx):
                         pick = k % 2 == 0 or cls_.startswith('documented') or fam == 'non-utf8'
                         if not pick:
                             continue
-                    yield 'post', dict(root=root, status_kind=status_kind, path_key=('added', 'root', 'added-sub', 'root', 'added-bp', 'root')[k % 6],
+                    yield 'post', dict(root=root, status_kind=status_kind, path_key=('added', 'root', 'added-sub', 'root', 'added-bp', 'root', 'sub-application')[k % 7],
                                        media_type=mt, body_hex=b.hex(), family=fam)
 
 
